@@ -663,8 +663,12 @@ class ConvexPolyhedron(Polyhedron):
 
         """
         _, principal_axes = np.linalg.eigh(self.inertia_tensor)
+        if np.linalg.det(principal_axes) < 0:
+            # eigh may return an improper rotation, which would mirror the shape.
+            principal_axes[:, 0] *= -1
         self._vertices = np.dot(self._vertices, principal_axes)
         self._sort_simplices()
+        self._find_equations()
 
     @property
     def mean_curvature(self):
